@@ -62,18 +62,21 @@ theorem delay_nonneg (k : Nat) (w : Q) (h : (reconnect cfg o r a fuel).waits[k]?
   have := (delay_within cfg o r a fuel k w h hrf h0 h1).1
   grind
 
+-- non-vacuity of the hypotheses of `delay_within`/`delay_nonneg`: the library defaults
+example : (0:Q) ≤ (1/2 : Q) ∧ (1/2 : Q) ≤ min ((1:Q) * 2 ^ 0) 5 := by decide +kernel
+
 def cfgEx : Cfg := ⟨true, 3, 1, 5, 1/2⟩
 def cfgInf : Cfg := ⟨true, 0, 1/4, 1, 1⟩
 
 -- non-vacuity: the defaults (1 s, cap 5 s, factor ½), three failures, random() = ¼, ¾, ½
 example : (reconnect cfgEx (fun _ => false) (fun k => if k = 0 then 1/4 else if k = 1 then 3/4 else 1/2)
-    none 10).waits = [3/4, 9/4, 4] := by decide
+    none 10).waits = [3/4, 9/4, 4] := by decide +kernel
 -- the cap is strict `>`: a delay equal to the cap is left alone, the next one is cut
 example : (reconnect ⟨true, 0, 1, 4, 0⟩ (fun _ => false) (fun _ => 0) none 5).waits = [1, 2, 4, 4, 4] := by
-  decide
+  decide +kernel
 /-- with `rf` above the capped delay the computed timeout can be negative -/
 theorem negative_wait_possible :
-    (reconnect cfgInf (fun _ => false) (fun _ => 0) none 1).waits = [-3/4] := by decide
+    (reconnect cfgInf (fun _ => false) (fun _ => 0) none 1).waits = [-3/4] := by decide +kernel
 
 /-! ### number of attempts -/
 
@@ -87,6 +90,10 @@ theorem gave_up_exactly (h : (reconnect cfg o r a fuel).final = .gaveUp) :
   have ⟨h1, h2⟩ := (loop_final_sound cfg o r a fuel 0 cfg.delay).2 h
   have := loop_attempts_le cfg o r a h1 fuel 0 cfg.delay (by omega)
   exact ⟨h1, by unfold reconnect; omega⟩
+
+-- non-vacuity: limit 3, everything fails: exactly 3 attempts, then the effort gives up
+example : (reconnect cfgEx (fun _ => false) (fun _ => 1/2) none 10).attempts = 3 ∧
+    (reconnect cfgEx (fun _ => false) (fun _ => 1/2) none 10).final = .gaveUp := by decide
 
 /-- `reconnection_attempts = 0`: if every attempt fails and nobody aborts, then for every `n` the
     effort makes an `n`-th attempt and is still running afterwards (it never gives up). -/
@@ -102,8 +109,8 @@ example : (reconnect cfgInf (fun _ => false) (fun _ => 1/2) none 25).attempts = 
 theorem one_wait_per_attempt :
     (reconnect cfg o r a fuel).waits.length =
       (reconnect cfg o r a fuel).attempts + (if (reconnect cfg o r a fuel).final = .aborted then 1 else 0) := by
-  have := loop_waits_length cfg o r a fuel 0 cfg.delay
-  simpa [reconnect] using this
+  unfold reconnect
+  exact loop_waits_length cfg o r a fuel 0 cfg.delay
 
 /-! ### end of the effort -/
 
@@ -209,7 +216,8 @@ theorem handlers_again (oc : Outcome) (h : oc.success s.nss = true) (i : Nat) (n
     refine ⟨(i, n), ?_, ?_⟩
     · have := hmem s.nss 0 i n hn
       simpa using this
-    · simp [hacc]
+    · show Ev.handler (if accepted acc i = true then HName.connect else HName.connectError) n = _
+      rw [hacc]; rfl
 
 /-- When the effort gives up or is aborted, `__disconnect_final` is invoked for every stored namespace. -/
 theorem final_handlers (f : Final) (hf : f = .gaveUp ∨ f = .aborted) (n : Ns) (hn : n ∈ s.nss) :
@@ -254,35 +262,122 @@ theorem nested_loss_starts_nothing {P : Type} (nss : List Ns) (e : Ev P)
   simp [attemptEvents, eioStateDuring, startsEffort] at h
   exact h
 
-/-- Over a whole client history: after any effort that has ended (connected, given up or aborted)
-    the bookkeeping is clear, so the next accidental loss starts a new effort. -/
-theorem effort_leaves_clean {P : Type} (c : Cli P) (cause : Cause) (sc : Script) (c' : Cli P)
-    (evs : List (Ev P)) (h : step c (.lose cause sc) = some (c', evs))
-    (hdone : ∀ s, c.stored = some s →
-      (effort c.cfg s sc.outs sc.rands sc.abortAt sc.fuel).1.final ≠ .running)
-    (htask : c.task = false) : c'.task = false := by
-  unfold step at h
-  split at h
-  · rename_i s hc hs
-    simp only at h
-    split at h
-    · simp only [Option.some.injEq, Prod.mk.injEq] at h
-      have := hdone s hs
-      rw [← h.1]
-      simp only
-      cases hfin : (effort c.cfg s sc.outs sc.rands sc.abortAt sc.fuel).1.final <;> simp_all
-    · simp only [Option.some.injEq, Prod.mk.injEq] at h
-      rw [← h.1]; exact htask
-  · simp at h
+/-! ### over a whole client history
 
--- non-vacuity of the history statement: give up after one failed attempt, connect again, lose the
--- transport again: a second effort starts
+  FULL-STRENGTH STATEMENT (what the property says, and what is FALSE on the code as it is):
+
+      theorem next_loss_starts_effort (c0 c : Cli P) (is : List (Input P)) (evs : List (Ev P))
+          (h0 : c0.task = false) (hrun : run c0 is = some (c, evs))
+          (hdone : no effort of the history is still running)
+          (hr : c.cfg.reconnection = true) :
+          startsEffort c.cfg (eioStateDuring .transportError) c.task = true
+
+  i.e. whenever no effort is in flight, an accidental loss starts one.  `_handle_reconnect` clears
+  `_reconnect_task` on its success exit only, so after an effort that ended by give-up or abort the
+  guard `not self._reconnect_task` stays false for the rest of the client's life
+  (KNOWN_FINDINGS `stale-reconnect-task`; `stale_task_witness` below is the machine-checked
+  counter-example).  The `_partial` theorem excludes exactly that region by the decidable
+  hypothesis `cleanHistory` (every effort of the history ended connected).
+-/
+
+theorem step_task_partial {P : Type} (c : Cli P) (i : Input P) (c' : Cli P) (evs : List (Ev P))
+    (htask : c.task = false) (hclean : effortFailed c i = false) (h : step c i = some (c', evs)) :
+    c'.task = false ∧ c'.cfg = c.cfg := by
+  cases i with
+  | connect s =>
+    simp only [step] at h
+    split at h
+    · simp at h
+    · simp only [Option.some.injEq, Prod.mk.injEq] at h
+      rw [← h.1]; exact ⟨htask, rfl⟩
+  | lose cause sc =>
+    simp only [step] at h
+    simp only [effortFailed] at hclean
+    cases hc : c.connected <;> cases hs : c.stored <;> simp only [hc, hs] at h hclean <;>
+      try (simp at h; done)
+    rename_i s
+    split at h
+    · rename_i hstart
+      simp only [Option.some.injEq, Prod.mk.injEq] at h
+      rw [← h.1]
+      simp only [hstart, Bool.true_and] at hclean
+      refine ⟨?_, rfl⟩
+      simpa using hclean
+    · simp only [Option.some.injEq, Prod.mk.injEq] at h
+      rw [← h.1]; exact ⟨htask, rfl⟩
+
+/-- Outside the region of the known finding: after a history in which every effort ended
+    connected, no effort is recorded as in flight … -/
+theorem history_task_partial {P : Type} (is : List (Input P)) : ∀ (c0 c : Cli P) (evs : List (Ev P)),
+    c0.task = false → cleanHistory c0 is = true → run c0 is = some (c, evs) →
+    c.task = false ∧ c.cfg = c0.cfg := by
+  induction is with
+  | nil =>
+    intro c0 c evs h0 _ hrun
+    simp only [run, Option.some.injEq, Prod.mk.injEq] at hrun
+    rw [← hrun.1]; exact ⟨h0, rfl⟩
+  | cons i is ih =>
+    intro c0 c evs h0 hclean hrun
+    unfold run at hrun
+    unfold cleanHistory at hclean
+    simp only [Bool.and_eq_true, Bool.not_eq_true'] at hclean
+    cases hst : step c0 i with
+    | none => simp [hst] at hrun
+    | some p =>
+      obtain ⟨c1, e1⟩ := p
+      simp only [hst] at hrun hclean
+      have ⟨ht, hcfg⟩ := step_task_partial c0 i c1 e1 h0 hclean.1 hst
+      cases hr : run c1 is with
+      | none => simp [hr] at hrun
+      | some q =>
+        obtain ⟨c2, e2⟩ := q
+        simp only [hr, Option.some.injEq, Prod.mk.injEq] at hrun
+        have := ih c1 c2 e2 ht hclean.2 hr
+        rw [← hrun.1]
+        exact ⟨this.1, this.2.trans hcfg⟩
+
+/-- … hence the next accidental loss starts a new effort (the property's "retries the connection"),
+    for a client with reconnection enabled. -/
+theorem next_loss_starts_effort_partial {P : Type} (c0 c : Cli P) (is : List (Input P))
+    (evs : List (Ev P)) (h0 : c0.task = false) (hclean : cleanHistory c0 is = true)
+    (hrun : run c0 is = some (c, evs)) (hr : c0.cfg.reconnection = true) :
+    startsEffort c.cfg (eioStateDuring .transportError) c.task = true := by
+  have ⟨ht, hcfg⟩ := history_task_partial is c0 c evs h0 hclean hrun
+  rw [ht, hcfg]
+  exact accidental_starts c0.cfg hr
+
 def scFail : Script := ⟨fun _ => .transport, fun _ => 1/2, none, 10⟩
+def scSecond : Script := ⟨fun k => if k = 1 then .served [] else .transport, fun _ => 1/2, none, 10⟩
 def stored0 : Stored Nat := ⟨7, ["/".toList]⟩
+def cfgOne : Cfg := ⟨true, 1, 1, 5, 0⟩
+def cfgThree : Cfg := ⟨true, 3, 1, 5, 0⟩
+
+-- non-vacuity of `next_loss_starts_effort_partial`: an effort that reconnects at its second
+-- attempt, then another accidental loss: the history is clean and a second effort runs (2 + 2
+-- attempts besides the initial connect)
 example :
-    (match run (Cli.init ⟨true, 1, 1, 5, 0⟩ : Cli Nat)
-        [.connect stored0, .lose .transportError scFail, .connect stored0, .lose .transportError scFail] with
-     | some (c, evs) => (c.task, countAttempts evs)
-     | none => (true, 0)) = (false, 4) := by decide
+    cleanHistory (Cli.init cfgThree : Cli Nat)
+      [.connect stored0, .lose .transportError scSecond, .lose .transportError scSecond] = true ∧
+    (match run (Cli.init cfgThree : Cli Nat)
+        [.connect stored0, .lose .transportError scSecond, .lose .transportError scSecond] with
+     | some (c, evs) => (c.task, c.connected, countAttempts evs)
+     | none => (true, false, 0)) = (false, true, 5) := by decide
+
+/-- NEGATION WITNESS of the full-strength statement (known finding `stale-reconnect-task`):
+    limit 1; connect; accidental loss; the single attempt fails, the effort gives up; the
+    application connects again; accidental loss — reconnection is enabled, no effort is running,
+    and yet none is started (and, `will_reconnect` being true, `__disconnect_final` is not invoked
+    either: the only events are the `disconnect` handler and the notification). -/
+theorem stale_task_witness :
+    (match run (Cli.init cfgOne : Cli Nat)
+        [.connect stored0, .lose .transportError scFail, .connect stored0] with
+     | some (c, _) =>
+        (c.cfg.reconnection, c.connected, startsEffort c.cfg (eioStateDuring .transportError) c.task)
+     | none => (false, false, true)) = (true, true, false) ∧
+    (match run (Cli.init cfgOne : Cli Nat)
+        [.connect stored0, .lose .transportError scFail, .connect stored0,
+         .lose .transportError scFail] with
+     | some (_, evs) => countAttempts evs
+     | none => 0) = 3 := by decide
 
 end Sio.C10
